@@ -17,6 +17,29 @@ UP up; CachedPageAllocator* pa;
 static void take(void* p) { size_t k = page_index(p); vf_check(held_by_caller[k] == 0, 1); vf_check(up_out[k] == 1, 4); held_by_caller[k] = 1; }     // a page is owned by at most one party
 static void give(void* p) { size_t k = page_index(p); vf_check(held_by_caller[k] == 1, 1); held_by_caller[k] = 0; }
 extern "C" void vf_init() { pa = new CachedPageAllocator; pa->set_upstream(up); pa->set_free_page_capacity(4); }
+#ifdef VF_PARTIAL
+// second program: the cache holds c pages (c symbolic 0..3), a batch of n pages (n symbolic 1..4) is requested - partly served from
+// the cache, the rest from upstream - and later returned as one batch into a cache that has room for only some of them
+extern "C" void vf_thread_0() {
+  uint64_t c = vf_nondet64(), n = vf_nondet64(), back = vf_nondet64(); vf_assume(c <= 3 && n >= 1 && n <= 4 && back <= 3);
+  void* p[4]; void* q[4]; void* r[3];
+  for (uint64_t i = 0; i < c && i < 3; ++i) { p[i] = pa->allocate(); take(p[i]); }
+  for (uint64_t i = 0; i < c && i < 3; ++i) { give(p[i]); pa->deallocate(p[i]); }            // c pages cached
+  vf_check(pa->free_page_num() == c, 5);
+  pa->allocate(q, n); for (uint64_t i = 0; i < n && i < 4; ++i) take(q[i]);                  // min(c,n) from the cache, the rest from upstream
+  for (uint64_t i = 0; i < n && i < 4; ++i) for (uint64_t j = 0; j < i; ++j) vf_check(q[i] != q[j], 1);
+  vf_check(up_allocs - up_frees == n + pa->free_page_num(), 5);
+  for (uint64_t i = 0; i < back && i < 3; ++i) { r[i] = pa->allocate(); take(r[i]); }        // some more pages out, then back: the cache fills up again
+  for (uint64_t i = 0; i < back && i < 3; ++i) { give(r[i]); pa->deallocate(r[i]); }
+  for (uint64_t i = 0; i < n && i < 4; ++i) give(q[i]);
+  pa->deallocate(q, n);                                                                      // capacity 4: what does not fit goes upstream
+  vf_check(pa->free_page_num() <= 4, 5);
+  vf_check(up_allocs - up_frees == pa->free_page_num(), 5);                                  // conservation at quiescence
+  delete pa;
+  vf_check(up_allocs == up_frees, 5);
+  for (int k = 0; k < VF_NPAGE; ++k) vf_check(up_out[k] == 0, 2);
+}
+#else
 extern "C" void vf_thread_0() {
   uint64_t k = vf_nondet64(); vf_assume(k >= 1 && k <= 3);
   void* p[3];
@@ -33,3 +56,4 @@ extern "C" void vf_thread_0() {
   delete pa;
   vf_check(up_allocs == up_frees, 5);                                           // everything returned upstream exactly once
 }
+#endif
